@@ -49,6 +49,7 @@ var missingFns []string
 // genFuncs builds obligations for the given function keys.
 func genFuncs(w *World, keys []string) ([]*Gen, error) {
 	var gens []*Gen
+	w.preRegister(pkgDirsOf(keys))
 	for _, k := range keys {
 		fn := w.findFn(k)
 		if fn == nil {
